@@ -76,10 +76,24 @@ def filterIds (where_ : Option Cond) (fields : List Exec.Field) (rows : List (Na
         | .panic p => .panic p
     go rows
 
+/-- the SET columns of `EvaluateUpdate`, in order: `Fields.LookupFieldIdx` (no such column:
+`fieldNotFound`, several: `fieldAmbiguous`), then a column that was set before (`fieldAmbiguous`) -/
+def checkSetColumns (fields : List Exec.Field) (seen : List Bytes) : List Bytes → Option Store.SErr
+  | [] => none
+  | c :: rest =>
+    let n := (fields.filter fun f => f.column == c).length
+    if n == 0 then some .fieldNotFound
+    else if n > 1 then some .fieldAmbiguous
+    else if seen.contains c then some .fieldAmbiguous
+    else checkSetColumns fields (seen ++ [c]) rest
+
 /-- `EvaluateUpdate` -/
 def evalUpdate (db : DB) (table : Bytes) (sets : List (Bytes × VExpr)) (where_ : Option Cond) : Res Unit :=
   if sets.any (fun p => match p.2 with | .col _ => true | _ => false) then .err .unsupported db else
   fetchForExec db table fun rows fields s =>
+    match checkSetColumns fields [] (sets.map (·.1)) with
+    | some e => .err (.store e) { db with store := s }
+    | none =>
     match filterIds where_ fields rows with
     | .err e => .err (.exec e) { db with store := s }
     | .panic p => .panic p
